@@ -199,6 +199,18 @@ namespace cds { namespace intrusive {
                 if ( m_pNode ) {
                     node_type * p = node_traits::to_node_ptr( *m_pNode )->m_pNext.load(memory_model::memory_order_relaxed).ptr();
                     m_pNode = p ? node_traits::to_value_ptr( p ) : nullptr;
+                    skip_deleted();
+                }
+            }
+
+            void skip_deleted()
+            {
+                // a node whose next pointer is marked is logically deleted (it may still be linked)
+                while ( m_pNode ) {
+                    marked_node_ptr pNext = node_traits::to_node_ptr( *m_pNode )->m_pNext.load( memory_model::memory_order_acquire );
+                    if ( pNext.bits() == 0 )
+                        break;
+                    m_pNode = pNext.ptr() ? node_traits::to_value_ptr( pNext.ptr()) : nullptr;
                 }
             }
 
@@ -214,6 +226,7 @@ namespace cds { namespace intrusive {
             {
                 node_type * pNode = refNode.load(memory_model::memory_order_relaxed).ptr();
                 m_pNode = pNode ? node_traits::to_value_ptr( *pNode ) : nullptr;
+                skip_deleted();
             }
 
         public:
